@@ -179,7 +179,7 @@ CELLS = {
     "alternatives": {"fn": alternatives, "bound": "3 one-cycle single-micro-op instructions, the one at each position with a second alternative port assignment x {1,2} passes: never worse than the default assignment's uniform bottleneck, never below the best alternative's optimum",
                      "budget": {"quick": 170, "thorough": 600}, "shards": 16},
     "cli_reported": {"fn": cli_reported, "bound": "the real CLI (osaca.run) on hsw: every ordered 3-instruction kernel over one real xmm instruction per available port set of {0,1,5}; the reported bottleneck (totals line) vs exact optimum and uniform",
-                     "budget": {"quick": 170, "thorough": 600}, "shards": 16},
+                     "budget": {"quick": 400, "thorough": 600}, "shards": 16},
     "with_two_cycle": {"fn": with_two_cycle, "bound": "all 2555 ordered kernels of length 1..3 over 14 forms containing a two-cycle form x {1,2} passes",
                        "budget": {"quick": 170, "thorough": 600}, "shards": 14},
 }
